@@ -676,6 +676,8 @@ func Span(dst []complex128, l, u complex128) []complex128 {
 	for i := range dst {
 		dst[i] = l + step*complex(float64(i), 0)
 	}
+	// The last element is u, not u subject to the rounding of l + step*(n-1).
+	dst[len(dst)-1] = u
 	return dst
 }
 
